@@ -174,7 +174,7 @@ def check_quantities(s, res, tag=""):
             pass
 
 
-def run_case(c):
+def _run_case_inner(c, keep):
     import random
     import trimesh
     res = []
@@ -192,6 +192,7 @@ def run_case(c):
             res.append("append_scenes-modified-source")
         return {"failed": res, "instances": sum(len(s.graph.nodes_geometry) for s in scenes)}
     s = build(c["spec"])
+    keep.append(s)
     if k == "readd":
         _ = s.bounds, s.area
         names = [n for n in s.graph.nodes_geometry]
@@ -285,6 +286,61 @@ def run_case(c):
                     s.graph.transforms.remove_node(r.choice(leaves))
             check_quantities(s, res, "after-" + what + ":")
     return {"failed": res, "instances": len(s.graph.nodes_geometry)}
+
+
+def run_case(c):
+    keep = []
+    o = _run_case_inner(c, keep)
+    if keep:
+        # snapshot of the final scene for the Lean model: world transform and geometry points of every instance
+        s = keep[0]
+        try:
+            inst = []
+            for n, attr in list(s.graph.transforms.node_data.items()):
+                if "geometry" not in attr or attr["geometry"] not in s.geometry:
+                    continue
+                T, g = s.graph.get(n)
+                V = np.asarray(s.geometry[g].vertices, dtype=np.float64)
+                if len(V) and V.shape[1] == 3:
+                    inst.append({"M": np.asarray(T, dtype=np.float64).tolist(), "pts": V.tolist()})
+            if inst and sum(len(i["pts"]) for i in inst) <= 400:
+                o["model_scene"] = {"instances": inst, "bounds": np.asarray(s.bounds).tolist()}
+        except Exception:
+            pass
+    return o
+
+
+def _q(x):
+    n, d = float(x).as_integer_ratio()
+    return [n, d]
+
+
+def model_request(c, o):
+    ms = o.get("model_scene") if isinstance(o, dict) else None
+    if not ms:
+        return None
+    return {"p": "C10", "instances": [{"L": [_q(x) for row in np.array(i["M"])[:3, :3] for x in row],
+                                       "t": [_q(x) for x in np.array(i["M"])[:3, 3]],
+                                       "pts": [[_q(x) for x in p] for p in i["pts"]]} for i in ms["instances"]]}
+
+
+def compare(c, o, m):
+    if "err" in m:
+        return "model error: " + str(m["err"])
+    from fractions import Fraction
+    f = lambda q: float(Fraction(q[0], q[1]))  # noqa
+    ms = o["model_scene"]
+    mb = [[f(x) for x in v] for v in m["bounds"]]
+    sc = max(1.0, float(np.abs(ms["bounds"]).max()))
+    if not np.allclose(mb, ms["bounds"], atol=1e-9 * sc):
+        return f"scene.bounds {ms['bounds']} differ from the model's fold over the placed copies {mb}"
+    # per-node corners (min / max of the rotated points + translation) must enclose exactly the placed points
+    for pl, (lo, hi) in zip(m["placed"], m["corners"]):
+        P = np.array([[f(x) for x in p] for p in pl])
+        lo, hi = np.array([f(x) for x in lo]), np.array([f(x) for x in hi])
+        if np.abs(P.min(0) - lo).max() > 0 or np.abs(P.max(0) - hi).max() > 1e-12 * sc:
+            return "model: node corners differ from the corners of the placed copy"
+    return None
 
 
 def oracle(c, o):
